@@ -207,4 +207,32 @@ theorem vwcf_roundtrip (s : VwcfSpec) (h : s.valid) : parseVwcf (encVwcf s) = .o
 example : (⟨0x045D, 213, 256, 555, 768, 1, 102, 30, List.replicate 9 0, 255, List.replicate 42 7, -1,
     List.replicate 6 0, 5, [1, 2, 3]⟩ : VwcfSpec).valid := by decide
 
+/-! ## the property -/
+
+/-- the five chunk kinds for which the property holds in full (model level), for every decoding function -/
+def others_full : Prop :=
+  (∀ (vs : List Int) (tail : Bytes), tail.length < 4 → (∀ v ∈ vs, s32 v) → parseCas (encCas vs tail) = .ok vs) ∧
+  (∀ (u1 u2 n2 : Int) (gap : Bytes) (es : List LctxEntry) (tail : Bytes), LctxValid u1 u2 n2 gap es →
+      parseLctx (encLctx u1 u2 n2 gap es tail) = .ok (es.map LctxEntry.ref)) ∧
+  (∀ (dec : Dec) (u1 u2 fs u3 : Int) (names : List Bytes) (tail : Bytes), LnamValid u1 u2 fs u3 names →
+      parseLnam dec (encLnam u1 u2 fs u3 names tail) = decodeAll dec names) ∧
+  (∀ (dec : Dec) (ms : List MarkerSpec) (sf : Int) (tail : Bytes), VwlbValid ms →
+      parseVwlb dec (encVwlb ms sf tail) = decodeMarkers dec ms) ∧
+  (∀ (s : VwcfSpec), s.valid → parseVwcf (encVwcf s) = .ok s.meaning)
+
+/-- C17 at full strength -/
+def C17_full : Prop := key_full ∧ others_full
+
+/-- C17, partial: everything except the last slot of the key table (F02) -/
+theorem C17_partial :
+    (∀ (o : Order) (u1 cap : Int) (es : List KeyEntry) (tail : Bytes), KeyValid u1 cap es → KeySupported es →
+        parseKey o (encKey o u1 cap es tail) = .ok (group es)) ∧
+    (∀ (u1 cap : Int) (es : List KeyEntry) (tail : Bytes), KeyValid u1 cap es →
+        parseKey .be (encKey .be u1 cap es tail) = parseKey .le (encKey .le u1 cap es tail)) ∧
+    others_full :=
+  ⟨key_partial, key_mac_pc, cas_roundtrip, lctx_roundtrip, lnam_roundtrip, vwlb_roundtrip, vwcf_roundtrip⟩
+
+/-- the full statement fails exactly because of F02 -/
+theorem C17_witness : ¬ C17_full := fun h => key_not_full h.1
+
 end Drx.C17
